@@ -301,7 +301,7 @@ func c13KeyCompleteness(c *core.Ctx, r *c13roles, rule string) {
 	key := core.FuncKey(r.parseNode) + " cache key"
 	c.Check(idOK, rule, key+" includes node ID", core.InstrPos(r.lookup), "the key depends on Node.ID of the context node", "the result-cache key does not depend on the context node: one node's value would be served for another")
 	c.Check(hashOK, rule, key+" includes declaration hash", core.InstrPos(r.lookup), "the key depends on the declaration hash", "the result-cache key does not depend on the declaration: one declaration's value would be served for another")
-	same := cellOrValue(r.lookup.Index) == cellOrValue(r.update.Key)
+	same := sameKey(cellOrValue(r.lookup.Index), cellOrValue(r.update.Key))
 	c.Check(same, rule, key+" lookup/store identity", core.InstrPos(r.update), "lookup and store use the same key variable", "the cache is filled under a different key than it is queried with")
 	// the key variable is assigned once
 	if cell, ok := cellOrValue(r.lookup.Index).(*ssa.Alloc); ok {
@@ -570,7 +570,11 @@ func kindWriterReadsExportedOnly(c *core.Ctx, r *c13roles, fld *types.Var) (bool
 			if w.Kind == "field" && w.Field == fld {
 				writes = true
 				if _, isConst := w.Val.(*ssa.Const); !isConst {
-					return false, "field " + fld.Name() + " is assigned a non-constant value in " + core.FuncKey(f)
+					// or the result of a helper that returns only constants and reads only exported fields
+					call, isCall := w.Val.(*ssa.Call)
+					if !isCall || call.Call.StaticCallee() == nil || !returnsConstsFromExported(call.Call.StaticCallee(), r, fld) {
+						return false, "field " + fld.Name() + " is assigned a non-constant value in " + core.FuncKey(f)
+					}
 				}
 			}
 		}
@@ -738,4 +742,52 @@ func fromHasher(v ssa.Value, hashers map[*ssa.Function]bool, d int) bool {
 		}
 	}
 	return false
+}
+
+// sameKey: the store key is the lookup key, or a Phi whose non-constant edges all are the lookup key (the constant edge
+// belongs to the cache-disabled path on which the store is not executed).
+func sameKey(lookup, store ssa.Value) bool {
+	if lookup == store {
+		return true
+	}
+	if phi, ok := store.(*ssa.Phi); ok {
+		n := 0
+		for _, e := range phi.Edges {
+			if _, isConst := e.(*ssa.Const); isConst {
+				continue
+			}
+			if cellOrValue(e) != lookup {
+				return false
+			}
+			n++
+		}
+		return n > 0
+	}
+	return false
+}
+
+// returnsConstsFromExported: every return of g is a constant, and g reads only exported fields of Decl.
+func returnsConstsFromExported(g *ssa.Function, r *c13roles, fld *types.Var) bool {
+	if g.Blocks == nil || core.FuncPkg(g) != r.tp {
+		return false
+	}
+	for _, b := range g.Blocks {
+		for _, in := range b.Instrs {
+			switch x := in.(type) {
+			case *ssa.Return:
+				for _, v := range x.Results {
+					if _, ok := v.(*ssa.Const); !ok {
+						return false
+					}
+				}
+			case *ssa.FieldAddr:
+				if core.FieldOwner(x) != nil && types.Identical(core.FieldOwner(x), r.declT) && !core.FieldOfAddr(x).Exported() {
+					return false
+				}
+			case ssa.CallInstruction:
+				return false
+			}
+		}
+	}
+	return true
 }
